@@ -12,23 +12,23 @@ import (
 type Policy func(site *HintSite, siteIndex int, inputs []*big.Int, p *big.Int) [][]*big.Int
 
 type Search[T any, O Ops[T]] struct {
-	S         *Sys[T, O]
-	Policy    Policy
-	MaxDev    int // deviation bound for policy alternatives
-	Nodes     int64
-	Edges     int64
-	Forced    int64
-	Branches  int64 // adversary choice points
-	Survived  int64 // non-honest / non-first choices that survived at least one further constraint
-	Deviated  int64
-	MaxNodes  int64 // safety cap per Run (0 = none)
-	Capped    bool
-	Err       error
-	w         []T
-	set       []bool
-	trail     []int
-	onAccept  func(w []T) bool
-	stop      bool
+	S        *Sys[T, O]
+	Policy   Policy
+	MaxDev   int // deviation bound for policy alternatives
+	Nodes    int64
+	Edges    int64
+	Forced   int64
+	Branches int64 // adversary choice points
+	Survived int64 // non-honest / non-first choices that survived at least one further constraint
+	Deviated int64
+	MaxNodes int64 // safety cap per Run (0 = none)
+	Capped   bool
+	Err      error
+	w        []T
+	set      []bool
+	trail    []int
+	onAccept func(w []T) bool
+	stop     bool
 }
 
 // Run explores all completions of the given partial assignment (assigned[i] says
